@@ -23,7 +23,8 @@ pub fn collect(cx: &Cx, rep: &mut Report) -> Vec<Collected> {
     let mut seen: BTreeSet<String> = BTreeSet::new();
     let mut cache = InstCache::default();
     let mut add = |out: &mut Vec<Collected>, label: &str, site: &str, inst: std::rc::Rc<Result<Instance, String>>, cond: String, shape: &str, wcb_nonempty: bool| {
-        let key = match &*inst { Ok(i) => i.text.clone(), Err(e) => e.clone() };
+        // the same text under "builder collected something" and "collected nothing" are two different facts
+        let key = format!("{}|{}", wcb_nonempty, match &*inst { Ok(i) => i.text.clone(), Err(e) => e.clone() });
         if seen.insert(key) { out.push(Collected { label: label.to_string(), site: site.to_string(), inst, cond, shape: shape.to_string(), wcb_nonempty }); }
     };
     for r in &cx.roles {
@@ -274,6 +275,7 @@ pub fn c20(cx: &Cx) -> i32 {
     crate::props_bounds::run_bounds(cx, &mut rep, &["ES-use-bound"]);
     crate::misc::wcb_rule(cx, &mut rep);
     crate::misc::mentions_param_rule(cx, &mut rep);
+    where_rules(cx, &mut rep);
     let coll = run_hyg(cx, &mut rep, &["TP-parse", "TP-zero-arm-match", "TP-nested-fn-types", "TP-free-fn-self", "TP-binders-generic"]);
     // generic / lifetime binders with fixed names clash with the user's parameters (E0403 / E0496): the C13 rule restricted to those kinds
     let mut n = 0;
@@ -356,6 +358,7 @@ pub fn c12(cx: &Cx) -> i32 {
     crate::props_bounds::run_bounds(cx, &mut rep, &["ES-use-bound"]);
     crate::misc::wcb_rule(cx, &mut rep);
     crate::misc::mentions_param_rule(cx, &mut rep);
+    where_rules(cx, &mut rep);
     // shape rules on all instances incl. zero / one element shapes
     let coll = run_hyg(cx, &mut rep, &["TP-parse", "TP-zero-arm-match"]);
     let shapes: BTreeSet<String> = coll.iter().map(|c| c.shape.clone()).collect();
